@@ -59,6 +59,49 @@ CHECKS["C12"] = dict(
   note="FilterImage seam only (CLI --type/--exclude-type and buf generate types: not driven); set sizes above 2 not explored; one recorded known finding (weak-import source locations).",
   design="3/C12")
 
+CHECKS["C05"] = dict(
+  level="exploration", engine="enum",
+  technique="bounded-exhaustive planting of one violation per built-in lint rule at every applicable element of clean-by-construction workspaces, with positions computed by an independent renderer",
+  text="A family of workspaces that follow every lint category by construction must produce no annotation in any category/version/option setting it is built for; a catalogue of 155 planting operators (>=1 per non-deprecated built-in rule, incl. PROTOVALIDATE basics) is applied at every applicable site (top level, nested 1 and 2, second file, second package); the result must contain exactly that rule's id at the offending element's own anchor token (line:column computed by the harness renderer), the declared collateral annotations, and nothing else; each result is also checked with the planted rule deselected; 45 cases are bound to `buf lint --error-format=json`.",
+  note="Rule tables (categories) are read from AllRules; the catalogue is a finite reading of the rule documentation; groups, options on services/enums, tabs/CRLF and CEL rules are not generated.",
+  design="3/C05")
+CHECKS["C07"] = dict(
+  level="exploration", engine="enum",
+  technique="bounded-exhaustive decoration of every token gap of a seed corpus (single decorations, thorough: adjacent pairs) through the real formatter, with parser/descriptor/comment/idempotence oracles that never call the formatter",
+  text="59 seeds (53 bufformat testdata inputs + 6 hand-written covering every node kind); for every token gap and each of 12 decorations (line/block/own-line/two-line comments, blank line, empty statement, whitespace removal, ...) the variant is formatted. Oracles: no panic, output parses, unlinked descriptors equal (imports as sets, same-name options keep order, aggregate values canonicalised), comment multiset preserved, protoc-attributed leading/trailing comments stay on the same declaration, format(format(x)) == format(x); CLI `buf format`, `-d --exit-code`, `-w` per seed.",
+  note="Lexical variety is the decoration alphabet over the seed corpus (<=2 decorations per text); 13 formatter defects are recorded as known findings with root-cause signatures, one was repaired.",
+  design="3/C07")
+CHECKS["C08"] = dict(
+  level="exploration", engine="enum",
+  technique="bounded-exhaustive enumeration of file sets, backends, walk orders, dependency DAGs and single perturbations against an independent SHAKE256 reference digest",
+  text="All subsets of <=3 (thorough 4) paths of a 14-path universe x 3 contents through local/remote modules, memory/disk/tar/zip/module-cache backends, every Walk permutation, names, targeting and v1 side files must give the reference b4/b5 digest (own x/crypto/sha3 implementation of the published construction); every single content/path/dependency-digest perturbation must change it and every non-module-file perturbation must not; all DAGs on <=3 modules with local/remote assignments; manifest text of <=3-path sets over a 20-path universe (spaces, tabs, unicode, newline) must equal the reference rendering and parse back equal.",
+  note="buf.lock lines written by the CLI are not observed; module cache on memory bucket (disk/locks are C09); one known finding (newline in a path).",
+  design="3/C08")
+CHECKS["C11"] = dict(
+  level="exploration", engine="enum",
+  technique="bounded-exhaustive enumeration of encodings x compressions x flag subsets, source packagings and --path/--exclude-path selections through the in-process CLI, comparing the image route with the source route and a targeting reference model",
+  text="9 (thorough 20) hand-written workspaces (custom and extension options incl. Any payloads, source info, two named modules, WKT imports, unknown fields) are built and written in {binpb,json,txtpb,yaml} x {none,gzip,zstd} x every subset of {--exclude-imports, --exclude-source-info, --as-file-descriptor-set}, read back and compared (proto.Equal modulo the flags' documented effect, decoded with protobuf-go only); dir/tar/tar.gz/zip/buf-export packagings must build equal images; for every (P,X) with |P|,|X|<=2 over files and directories (no path inside an exclude) build, lint and breaking on the image must equal the run on the sources.",
+  note="Workspaces are hand-written; no remote modules; four recorded known-finding signatures (Any option with --exclude-imports, yaml.v3 leading newline, unused_dependency on the directory route).",
+  design="3/C11")
+CHECKS["C16"] = dict(
+  level="exploration", engine="enum",
+  technique="t-way exhaustive (2-way quick, 3-way thorough) enumeration of configuration documents over per-feature dimensions with a deep accessor-dump round-trip oracle; exhaustive migration of generated v1/v1beta1 workspaces compared before/after through build, lint and breaking",
+  text="buf.yaml (12 frames x 21-28 feature dimensions), buf.lock (900 documents with real digests), buf.work.yaml (1640), buf.gen.yaml (v1beta1/v1/v2: managed sections, every input and plugin kind) are read, written, read: every accessor (dirs, includes, excludes, effective lint/breaking incl. Disabled(), deps, plugins, digests, generate configs) must be equal and writing must be byte-idempotent. 396 (thorough 2011) generated v1/v1beta1 workspaces are migrated with bufmigrate on memory buckets: per original module same file set, proto.Equal descriptors, identical lint and breaking annotation sets.",
+  note="The document grammar is t-way, not the full product; no reference model of reader semantics (round trip and before/after differential only); nine recorded known-finding signatures (disabled check configs, buf.gen.yaml type filters, v1beta1-only ids).",
+  design="3/C16")
+CHECKS["C18"] = dict(
+  level="exploration", engine="enum",
+  technique="bounded-exhaustive enumeration of managed-mode configurations (override sequences x disable sets per option family, cross-family, v1 and v2 forms) on bufimagemodify.Modify against a reference precedence model with differential defaults",
+  text="For 4 fixture images every configuration of: enabled on/off x every sequence of <=2 (thorough 3) override rules x every set of <=2 disable rules per governed option family (all file options with value/prefix/suffix forms, field option jstype), a cross-family block and buf.gen.yaml v1 forms is parsed by buf and applied. Reference model: only governed options of non-WKT, non-exempted files change; value = last matching override else the default observed under the rule-free configuration; disabled leaves the input value; everything else proto.Equal; removed source locations = exactly the rewritten options' paths; managed disabled = identical image.",
+  note="Default formulas are checked by literals on the fixture files only; Modify seam only (buf generate end-to-end not driven).",
+  design="3/C18")
+CHECKS["C20"] = dict(
+  level="exploration", engine="enum",
+  technique="bounded-exhaustive enumeration of annotation sets over a hostile-text alphabet through all printers with independent parsers, and of planted-problem workspaces x commands x error formats through the in-process CLI",
+  text="Part A: every file x message string of <=3 fragments over {a \" < & LF % , :: e-acute} (+CR), positions {0,1,12}^4, and every ordered tuple of <=3 annotations from a colliding pool are rendered in text/json/msvs/junit/github-actions and parsed back by the harness's own parsers (JSON lines, encoding/xml, line grammars, the workflow-command grammar with its escaping rules): same list, same order, equal on every field the format carries. Part B: build, lint, breaking, format --exit-code (-d) x every error format on workspaces with 0..3 planted lint/breaking/compile/format problems in 8 directory names and 10 operational-error situations: exit 0 iff nothing printed, 100 iff annotations/missing import/diff, other non-zero for operational errors, equal across formats.",
+  note="text/msvs sets containing a newline are skipped (no escape in those grammars); single-module workspaces; planted sets n<=3.",
+  design="3/C20")
+
 NOT_YET = {}
 
 def main():
